@@ -33,6 +33,7 @@ type OracleOut struct {
 	NonPanic  map[string]int `json:"per_pair_nonpanic"`
 	Diffs     []Diff         `json:"diffs"`
 	Corpus    int            `json:"corpus_witnesses"`
+	Directed  int            `json:"directed_evaluations"`
 	CorpusNow []string       `json:"corpus_witnesses_that_agree_now"`
 	RegrOK    int            `json:"regression_witnesses_agree"`
 	DiffCount map[string]int `json:"diff_count"`
@@ -97,6 +98,28 @@ func oracleRun(o Opts, perPlan int, exh bool) OracleOut {
 					continue
 				}
 				k := "corpus|" + diffKey(d)
+				out.DiffCount[k]++
+				if rep[k] == nil {
+					rep[k] = d
+				}
+			}
+		}
+	}
+	// directed evaluations: accumulation order of the products, in-place products (directed.go)
+	if !exh {
+		for _, dc := range directedCases() {
+			cl, d, both := evalPair(dc)
+			out.Evals++
+			out.Directed++
+			key := dc.Kind + "." + dc.G + "/" + dc.C
+			out.PerPair[key]++
+			if both {
+				out.BothPanic++
+			} else {
+				out.NonPanic[key]++
+			}
+			if cl != 0 {
+				k := "corpus|directed|" + diffKey(d)
 				out.DiffCount[k]++
 				if rep[k] == nil {
 					rep[k] = d
@@ -173,6 +196,7 @@ func main() {
 	emitCases(o)
 	emitBCases(o)
 	emitMCases(o)
+	emitICases(o)
 }
 
 func replay(o Opts) {
